@@ -592,6 +592,11 @@ def build(spec, env):
         return _build(spec, env)
     except (env.DeclarationError, env.SubstitutionError) as e:
         raise BuildError("%s: %s" % (type(e).__name__, e)) from None
+    except RecursionError:
+        raise BuildError("RecursionError") from None
+    except Exception as e:
+        # a derivation inside the spec crashed in d42 (exception *types* are C12's business)
+        raise BuildError("other:%s: %s" % (type(e).__name__, e)) from None
 
 
 def _build(spec, env):
